@@ -9,6 +9,7 @@
 -/
 import Homonim.GeneratedCode
 import Homonim.Model.Stats
+import Homonim.Model.Bands
 import Mathlib.Tactic.Ring
 import Mathlib.Tactic.FieldSimp
 import Mathlib.Tactic.Linarith
@@ -81,5 +82,16 @@ theorem src_C12_r2_band (count b : Nat) : isR2Band count b = stats_isR2Band coun
   · intro h
     have : count * 2 ≤ b * 3 := by exact_mod_cast h
     omega
+
+/-! ### matched_pair.py band matching (C15) -/
+
+/-- `_match_pair_bands`: the model's relative distance is the source's `|s - r| / s` - normalised by the *source* wavelength - and
+    undefined (masked) for a zero or missing wavelength -/
+theorem src_C15_rel_dist (a b : Rat) : relDist (some a) (some b) = if a = 0 then none else some (match_relDist a b) := rfl
+
+/-- the tolerance test, the condition under which wavelengths are used at all, and the greedy step are the source's -/
+theorem src_C15_matching (srcW refW : List (Option Rat)) (force : Bool) (d tol : Rat) :
+    (npAny srcW && npAny refW && !force) = match_useWavelengths (npAny srcW) (npAny refW) force ∧
+      decide (tol < d) = match_tooFar d tol ∧ greedyStepsModel = match_greedySteps := ⟨rfl, rfl, rfl⟩
 
 end Homonim
